@@ -83,9 +83,13 @@ func genL3(r *rand.Rand, i int, ntx int) l3cfg {
 	} else {
 		cf.AsyncReps = 1 + r.IntN(2)
 	}
-	all := []string{"replica-restart", "replica-unload-load", "primary-restart", "replica-restart", "primary-checkpoint"}
-	nd := 1 + r.IntN(3)
-	for k := 0; k < nd; k++ {
+	// a replica-side disturbance (the replicator has to resume from its own state) in every async scenario and in
+	// two thirds of the sync ones, then up to two more of any kind
+	if !cf.Sync || r.IntN(3) > 0 {
+		cf.Disturb = append(cf.Disturb, []string{"replica-restart", "replica-unload-load"}[r.IntN(2)])
+	}
+	all := []string{"replica-restart", "replica-unload-load", "primary-restart", "primary-restart", "primary-checkpoint"}
+	for k := r.IntN(3); k > 0 || len(cf.Disturb) == 0; k-- {
 		cf.Disturb = append(cf.Disturb, all[r.IntN(len(all))])
 	}
 	restarts := false
@@ -93,7 +97,8 @@ func genL3(r *rand.Rand, i int, ntx int) l3cfg {
 		restarts = restarts || strings.HasPrefix(d, "replica-")
 	}
 	// with embedded values a replica does not find its precommitted txs again after a restart (open finding
-	// restart/acknowledged-precommit-lost/embedded-values): kept out of the sync scenarios that restart replicas
+	// restart/acknowledged-precommit-lost/embedded-values); a sync primary then refuses the replica's lower state
+	// ("lags behind the previously informed one") and both wait for each other: kept out of those scenarios
 	cf.Embedded = !(cf.Sync && restarts) && r.IntN(2) == 0
 	cf.Late = r.IntN(3) == 0 && (cf.AsyncReps > 0 || cf.SyncReps > cf.Acks)
 	cf.Diverge = i%3 == 1
@@ -479,7 +484,11 @@ func (s *l3run) committer(g int, wg *sync.WaitGroup, left *atomic.Int64) {
 				continue
 			}
 			if strings.Contains(err.Error(), "context deadline") || strings.Contains(err.Error(), "DeadlineExceeded") {
-				s.c.Inconclusive(fmt.Sprintf("[%s] a commit on the primary (%s) did not return within %s", s.cf.Name, op, opTimeout))
+				if debug {
+					buf := make([]byte, 1<<25)
+					os.WriteFile("/var/tmp/c07-l3-hang-"+s.cf.Name+".txt", buf[:runtime.Stack(buf, true)], 0o644)
+				}
+				s.c.Inconclusive(fmt.Sprintf("[%s %s] a commit on the primary (%s) did not return within %s: %v", s.cf.Name, s.cf, op, opTimeout, err))
 				s.quit.Store(true)
 				return
 			}
@@ -551,6 +560,10 @@ func (s *l3run) sampler(wg *sync.WaitGroup, stop *atomic.Bool) {
 // ---- disturbances ----
 
 func (s *l3run) disturb(kind string, r *rand.Rand) {
+	if strings.HasPrefix(kind, "replica-") && len(s.reps) == 0 {
+		s.count("disturbance-skipped/" + kind) // the only replica joins late and is not there yet
+		return
+	}
 	s.epoch.Add(1)
 	defer s.epoch.Add(1)
 	outcome := "done"
@@ -636,29 +649,49 @@ func (s *l3run) settle(why string) bool {
 		k := s.cli(rp)
 		ok := false
 		var last *schema.ImmutableState
-		moved, asked := 0, 0
-		for i := 0; i < int(l3Wait/(50*time.Millisecond)); i++ {
-			st, err := s.state(k)
-			if err == nil {
-				asked++
-				if last != nil && (st.TxId != last.TxId || st.PrecommittedTxId != last.PrecommittedTxId) {
-					moved++
+		observe := func(rounds int) (moved, asked int) {
+			for i := 0; i < rounds; i++ {
+				st, err := s.state(k)
+				if err == nil {
+					asked++
+					if last != nil && (st.TxId != last.TxId || st.PrecommittedTxId != last.PrecommittedTxId) {
+						moved++
+					}
+					last = st
+					if st.TxId >= ps.TxId {
+						ok = true
+						return
+					}
 				}
-				last = st
-				if st.TxId >= ps.TxId {
-					ok = true
-					break
-				}
+				time.Sleep(50 * time.Millisecond)
 			}
-			time.Sleep(50 * time.Millisecond)
+			return
+		}
+		moved, _ := observe(int(l3Wait / (50 * time.Millisecond)))
+		if !ok && last != nil && moved == 0 {
+			// No movement at all. The replicator backs off up to two minutes after connection failures, so silence alone
+			// says nothing: the replica database is reloaded, which starts a fresh replicator that connects at once
+			// (the primary answers). Judged from state: if it again neither precommits nor commits anything over
+			// hundreds of observations while the primary is ahead, it has stopped following.
+			adm := &l3cli{srv: rp, db: "defaultdb", dir: filepath.Join(s.root, "client-state")}
+			adm.retry(func(ctx context.Context, c client.ImmuClient) error {
+				_, e := c.UnloadDatabase(ctx, &schema.UnloadDatabaseRequest{Database: l3ReplicaDB})
+				return e
+			})
+			rerr := adm.retry(func(ctx context.Context, c client.ImmuClient) error {
+				_, e := c.LoadDatabase(ctx, &schema.LoadDatabaseRequest{Database: l3ReplicaDB})
+				return e
+			})
+			adm.close()
+			k.close()
+			moved2, asked2 := observe(int(60 * time.Second / (50 * time.Millisecond)))
+			if !ok && rerr == nil && moved2 == 0 && asked2 > 300 {
+				s.viol("l3/replica-stopped-following-the-primary", fmt.Sprintf("%s: the primary has committed tx %d; %s stays at committed %d / precommitted %d: no movement before and, over %d observations, none after its database was reloaded (fresh replicator, primary answering, no divergence injected)", why, ps.TxId, rp.name, last.TxId, last.PrecommittedTxId, asked2))
+				k.close()
+				return false
+			}
 		}
 		k.close()
-		if !ok && last != nil && moved == 0 && asked > 1000 {
-			// judged from state, not from the clock alone: primary and replica were up and answering, the primary is
-			// ahead, and over more than a thousand observations the replica neither precommitted nor committed anything
-			s.viol("l3/replica-stopped-following-the-primary", fmt.Sprintf("%s: the primary has committed tx %d; %s stays at committed %d / precommitted %d and did not move during %d observations over %s although both servers answer and no divergence was injected", why, ps.TxId, rp.name, last.TxId, last.PrecommittedTxId, asked, l3Wait))
-			return false
-		}
 		if !ok {
 			s.c.Inconclusive(fmt.Sprintf("[%s %s] %s: %s did not reach the primary's committed tx %d within %s (last state %v)", s.cf.Name, s.cf, why, rp.name, ps.TxId, l3Wait, last))
 			return false
@@ -933,7 +966,8 @@ func trunc(s string, n int) string {
 // divergence: the primary is put back to the checkpoint copy and continues with other txs. Oracle (e): no replica
 // ends with a mixture: each one either keeps exactly the old history (and stops), or holds exactly the new one.
 func (s *l3run) divergence(old [][32]byte) {
-	if s.backup == "" || s.backupN == 0 {
+	if s.backup == "" || s.backupN == 0 || s.backupN+2 >= uint64(len(old)) {
+		s.count("divergence/skipped-checkpoint-too-late")
 		return
 	}
 	s.divert.Store(true)
@@ -1039,6 +1073,10 @@ func (s *l3run) divergence(old [][32]byte) {
 		if rs.TxId > ps.TxId && outcome == "follows-new-history" {
 			s.viol("l3/replica-committed-ahead-of-primary", fmt.Sprintf("after divergence %s committed %d, primary %d", rp.name, rs.TxId, ps.TxId))
 		}
+		if debug {
+			fmt.Fprintf(os.Stderr, "DIVERGENCE %s %s: outcome=%s replica committed=%d precommitted=%d backupN=%d oldN=%d newPrimary=%d/%d acked-new=%d\n", s.cf.Name, rp.name, outcome, rs.TxId, rs.PrecommittedTxId, s.backupN, len(old)-1, ps.TxId, ps.PrecommittedTxId, done)
+			os.WriteFile("/var/tmp/c07-l3-div-"+s.cf.Name+"-"+rp.name+".txt", []byte(fmt.Sprintf("outcome=%s replica committed=%d precommitted=%d backupN=%d oldN=%d newPrimary=%d/%d acked-new=%d\n", outcome, rs.TxId, rs.PrecommittedTxId, s.backupN, len(old)-1, ps.TxId, ps.PrecommittedTxId, done)), 0o644)
+		}
 		s.c.Distinct(fmt.Sprintf("L3/%s/divergence/allowDiscarding=%v/%s", s.cf.mode(), s.cf.AllowDisc, outcome))
 		s.count("divergence/" + outcome)
 		k.close()
@@ -1127,6 +1165,15 @@ func runL3(c *fw.Ctx, cf l3cfg) {
 		events = append(events, "late-replica")
 	}
 	r.Shuffle(len(events), func(i, j int) { events[i], events[j] = events[j], events[i] })
+	if cf.Diverge {
+		// the checkpoint the primary is later put back to must lie well before the end of the history
+		for i, ev := range events {
+			if ev == "primary-checkpoint" {
+				events[0], events[i] = events[i], events[0]
+				break
+			}
+		}
+	}
 	for i, ev := range events {
 		th := int64(cf.NTx) * int64(i+1) / int64(len(events)+1)
 		for s.acks.Load() < th {
